@@ -17,6 +17,11 @@
 //                       exact-size heap block, back = FromString(text).  -> "<count> <bad> <fnv1a64 of all
 //                       texts, each followed by '\n'> <first bad as M.m or ->"
 //                       bad = back != v (field-wise) for a valid v, or back valid for the invalid v.
+//   t <hex> <start>     strtol(p + start, &end, 10) on the exact-size heap copy (start <= length)
+//                         -> "<value> <end - p>"            (validates the model of strtol itself)
+//   q <hex>             FromStringBeforeFix() below: the function as it was before repository commit a4e1937, kept
+//                       here verbatim so that the model of strtol (blanks, signs, clamping, where it stops reading)
+//                       and the theorems about the old code stay tied to libc under ASan  -> as `p`
 //   "-" as <hex> is the empty string.
 //
 // Every request is executed in a forked child (one child per run of requests; a new child is forked after a
@@ -74,12 +79,41 @@ static std::string show(const DataVersion& v) {
   return "ok " + std::to_string((int)v.major_version) + " " + std::to_string((int)v.minor_version);
 }
 
+// FromString() of data_version.cc before the fix, verbatim.
+static DataVersion FromStringBeforeFix(const char* str) {
+  using point_one::fusion_engine::messages::INVALID_DATA_VERSION;
+  char* end_c = nullptr;
+  long tmp = 0;
+  DataVersion version;
+
+  tmp = strtol(str, &end_c, 10);
+  if (end_c == str || tmp > 0xFF || tmp < 0) {
+    return INVALID_DATA_VERSION;
+  }
+  version.major_version = (uint8_t)tmp;
+
+  const char* minor_str = end_c + 1;
+
+  tmp = strtol(minor_str, &end_c, 10);
+  if (end_c == minor_str || tmp > 0xFFFF || tmp < 0) {
+    return INVALID_DATA_VERSION;
+  }
+  version.minor_version = (uint16_t)tmp;
+
+  return version;
+}
+
 // The string in a heap block of exactly len + 1 bytes.
-static DataVersion parse_exact(const std::string& bytes) {
+static char* exact_copy(const std::string& bytes) {
   char* p = (char*)malloc(bytes.size() + 1);
   memcpy(p, bytes.data(), bytes.size());
   p[bytes.size()] = 0;
-  DataVersion v = FromString((const char*)p);
+  return p;
+}
+
+static DataVersion parse_exact(const std::string& bytes, bool before_fix = false) {
+  char* p = exact_copy(bytes);
+  DataVersion v = before_fix ? FromStringBeforeFix((const char*)p) : FromString((const char*)p);
   free(p);
   return v;
 }
@@ -88,12 +122,23 @@ static std::string answer(const std::string& line) {
   std::istringstream is(line);
   std::string op;
   is >> op;
-  if (op == "p" || op == "s") {
+  if (op == "p" || op == "s" || op == "q") {
     std::string h, bytes;
     is >> h;
     if (!unhex(h, &bytes)) return "bad-args";
     if (op == "p") return show(parse_exact(bytes));
+    if (op == "q") return show(parse_exact(bytes, true));
     return show(FromString(std::string(bytes)));
+  } else if (op == "t") {
+    std::string h, bytes;
+    size_t start = 0;
+    if (!(is >> h >> start) || !unhex(h, &bytes) || start > bytes.size()) return "bad-args";
+    char* p = exact_copy(bytes);
+    char* e = nullptr;
+    long v = strtol(p + start, &e, 10);
+    std::string r = std::to_string(v) + " " + std::to_string((long)(e - p));
+    free(p);
+    return r;
   } else if (op == "f" || op == "o" || op == "v") {
     unsigned M = 0, m = 0;
     if (!(is >> M >> m) || M > 255 || m > 65535) return "bad-args";
